@@ -86,8 +86,16 @@ def run_unit(u, desc, tier, seed):
         with patched(mod, checks):
             B0 = mod.form_b_mat(cell)
             if group == 'new_roundtrip':
-                B = mod.epsilon_to_b(eps, cell)
-                return {'B0': B0, 'B': B, 'eps2': mod.b_to_epsilon(B, cell), 'Bzero': mod.epsilon_to_b([0, 0, 0, 0, 0, 0], cell)}
+                # the strain is handed over as an ARRAY (what a caller holding a float64 array does): the callee must not modify it,
+                # and a second call with the same array object must return the same matrix
+                epsA = C.oa(list(eps))
+                B = mod.epsilon_to_b(epsA, cell)
+                eps_after = [epsA[i] for i in range(6)]
+                B_again = mod.epsilon_to_b(epsA, cell)
+                Bkeep = B.copy()
+                eps2 = mod.b_to_epsilon(B, cell)
+                return {'B0': B0, 'B': Bkeep, 'eps2': eps2, 'Bzero': mod.epsilon_to_b([0, 0, 0, 0, 0, 0], cell),
+                        'eps_after': eps_after, 'B_again': B_again, 'B_after': B}
             B2 = mod.form_b_mat(cell2)
             if group == 'new_oracle':
                 e = mod.b_to_epsilon(B2, cell)
@@ -142,6 +150,9 @@ def run_unit(u, desc, tier, seed):
         if group == 'new_roundtrip':
             P('b_to_epsilon(epsilon_to_b(eps))=eps', C.resid_goal(zc, [o['eps2'][i] - eps[i] for i in range(6)]))
             P('epsilon_to_b(0)=form_b_mat', C.resid_goal(zc, C.flat(o['Bzero'] - o['B0'])))
+            P('epsilon_to_b/leaves-its-strain-array-unchanged', C.resid_goal(zc, [o['eps_after'][i] - eps[i] for i in range(6)]))
+            P('epsilon_to_b/second-call-with-the-same-array=first', C.resid_goal(zc, C.flat(o['B_again'] - o['B'])))
+            P('b_to_epsilon/leaves-its-B-array-unchanged', C.resid_goal(zc, C.flat(o['B_after'] - o['B'])))
             B = o['B']
             P('epsilon_to_b/upper-triangular', C.resid_goal(zc, [B[1, 0], B[2, 0], B[2, 1]]))
             bound = []
@@ -217,8 +228,13 @@ def numeric(modname, group, cell, cell2, eps, q, tol=1e-6):
     try:
         B0 = mod.form_b_mat(cell)
         if group == 'new_roundtrip':
-            B = mod.epsilon_to_b(eps, cell)
+            epsA = np.array(eps, float)
+            B = mod.epsilon_to_b(epsA, cell)
+            chk('epsilon_to_b leaves its strain array unchanged', epsA, eps)
+            chk('epsilon_to_b second call with the same array', mod.epsilon_to_b(epsA, cell), B)
+            Bk = np.array(B, float).copy()
             chk('b_to_epsilon(epsilon_to_b)', mod.b_to_epsilon(B, cell), eps)
+            chk('b_to_epsilon leaves its B array unchanged', B, Bk)
             chk('epsilon_to_b(0)', mod.epsilon_to_b([0.] * 6, cell), B0)
             chk('upper', [B[1, 0], B[2, 0], B[2, 1]], [0, 0, 0])
             if max(abs(e) for e in eps) <= 0.1 and min(np.diag(B)) <= 0:
